@@ -231,30 +231,35 @@ def scales(t, env, pmin=0.5):
         n = int(t[2])
         v = abs(env[t[1]])
         return 1 / v**n, n / v ** (n + 1)
+    # Functions of a sub-expression E with magnitude bound a: the rounding error of E is ~eps*a and passes through f with
+    # factor |f'| <= L, so the error scale of f(E) is max(|f| bound, L*a) - not the bound of |f| alone (sin of an argument
+    # of 1e9 is only good to 1e-7); likewise the computed derivative f'(E)*E' carries eps*a*|f''|*|E'|, hence the
+    # factor max(1, a) on the derivative scale. (Thorough tier, DESIGN 10 items 23-24.)
     if k == "wrap":
         a, da = scales(t[2], env, pmin)
-        return mp.mpf(7), 2 * da
+        return max(mp.mpf(7), 2 * a), 2 * da * max(1, a)
     a, da = scales(t[1], env, pmin)
+    amp = max(mp.mpf(1), a)
     if k == "abs2":
-        return mp.mpf(3), da
+        return max(mp.mpf(3), a), da * amp
     if k == "ufun":
-        return mp.mpf(1), da
+        return max(mp.mpf(1), a), da * amp
     if k in ("sin", "cos", "tanh"):
-        return mp.mpf(1), da
+        return max(mp.mpf(1), a), da * amp
     if k == "atan":
-        return mp.mpf(2), da
+        return max(mp.mpf(2), a), da * amp
     if k == "exp":
-        return mp.e, mp.e * da
+        return mp.e * amp, mp.e * da * amp
     if k == "sec":
-        return mp.mpf(2), 3 * da
+        return max(mp.mpf(2), 3 * a), 3 * da * amp
     if k == "tan":
-        return mp.mpf(2), 4 * da
+        return max(mp.mpf(2), 4 * a), 4 * da * amp
     if k == "sqrt":
         lo = den_lower(t[1], env, pmin)
-        return mp.sqrt(a), da / (2 * mp.sqrt(lo))
+        return max(mp.sqrt(a), a / (2 * mp.sqrt(lo))), da / (2 * mp.sqrt(lo)) * max(1, a / lo)
     if k == "log":
         lo = den_lower(t[1], env, pmin)
-        return mp.log(1 + a) + 1, da / lo
+        return max(mp.log(1 + a) + 1, a / lo), da / lo * max(1, a / lo)
     raise ValueError(k)
 
 
